@@ -1582,8 +1582,8 @@ impl<'a, 'b, W: Write> Serializer for &'a mut YamlSerializer<'b, W> {
         } else if name == NAME_TUPLE_COMMENTED {
             Ok(TupleSer::commented(self))
         } else {
-            // Treat as normal block sequence
-            Ok(TupleSer::normal(self))
+            // An ordinary tuple struct is written exactly like a tuple / sequence.
+            Ok(TupleSer::normal(self.serialize_seq(Some(_len))?))
         }
     }
 
@@ -1594,16 +1594,41 @@ impl<'a, 'b, W: Write> Serializer for &'a mut YamlSerializer<'b, W> {
         variant: &'static str,
         _len: usize,
     ) -> Result<Self::SerializeTupleVariant> {
-        if self.at_line_start {
-            self.write_indent(self.depth)?;
-        }
+        // Same placement rules as for struct variants; the fields are then written as a block
+        // sequence under the variant name.
+        let in_value_position = self.pending_space_after_colon;
+        // A pending anchor belongs to the whole variant mapping: it is written first and the
+        // mapping starts on the next line.
+        let anchored = self.write_anchor_before_complex_node()?;
+        let depth_next = if in_value_position {
+            // Value position after a map key: start the variant mapping on the next line,
+            // indented one level under the parent mapping.
+            self.pending_space_after_colon = false;
+            self.newline()?;
+            let base = self.current_map_depth.unwrap_or(self.depth) + 1;
+            self.write_indent(base)?;
+            base + 1
+        } else {
+            // Top-level or sequence context. After a list dash the fields go two levels under
+            // the dash (one for the element, one for the mapping).
+            let dash_depth = self.after_dash_depth.take();
+            if anchored {
+                self.newline()?;
+                self.write_indent(dash_depth.map_or(self.depth, |d| d + 1))?;
+            } else if self.at_line_start {
+                self.write_indent(self.depth)?;
+            }
+            dash_depth.map_or(self.depth + 1, |d| d + 2)
+        };
         self.write_plain_or_quoted(variant)?;
         self.out.write_str(":\n")?;
         self.at_line_start = true;
-        let depth_next = self.depth + 1;
+        // The first field starts a line of its own.
+        self.pending_inline_map = false;
         Ok(TupleVariantSer {
             ser: self,
             depth: depth_next,
+            first: true,
         })
     }
 
@@ -1923,6 +1948,10 @@ pub struct TupleSer<'a, 'b, W: Write> {
     /// For normal tuples: target indentation depth.
     /// For weak/strong: temporary storage (ptr id or state).
     depth_for_normal: usize,
+    /// For normal tuples: the remaining state of the sequence they are written as
+    /// (see [`SeqSer`]).
+    flow_for_normal: bool,
+    after_anchor_for_normal: bool,
 
     // ---- Extra fields for refactoring/perf/correctness ----
     /// For strong anchors: if Some(id) then we must emit an alias instead of a definition at field #2.
@@ -1943,19 +1972,30 @@ enum TupleKind {
     Commented,    // [comment, value]
 }
 impl<'a, 'b, W: Write> TupleSer<'a, 'b, W> {
-    /// Create a tuple serializer for normal tuple-structs.
-    fn normal(ser: &'a mut YamlSerializer<'b, W>) -> Self {
-        let depth_next = ser.depth + 1;
+    /// Create a tuple serializer for normal tuple-structs from the sequence they are written as.
+    fn normal(seq: SeqSer<'a, 'b, W>) -> Self {
         Self {
-            ser,
+            ser: seq.ser,
             kind: TupleKind::Normal,
             idx: 0,
-            depth_for_normal: depth_next,
+            depth_for_normal: seq.depth,
+            flow_for_normal: seq.flow,
+            after_anchor_for_normal: seq.after_anchor,
             strong_alias_id: None,
             weak_present: false,
             skip_third: false,
             weak_alias_id: None,
             comment_text: None,
+        }
+    }
+    /// For normal tuple-structs: the sequence serializer in its current state.
+    fn as_seq(&mut self) -> SeqSer<'_, 'b, W> {
+        SeqSer {
+            ser: &mut *self.ser,
+            depth: self.depth_for_normal,
+            flow: self.flow_for_normal,
+            first: self.idx == 0,
+            after_anchor: self.after_anchor_for_normal,
         }
     }
     /// Create a tuple serializer for internal strong-anchor payloads.
@@ -1965,6 +2005,8 @@ impl<'a, 'b, W: Write> TupleSer<'a, 'b, W> {
             kind: TupleKind::AnchorStrong,
             idx: 0,
             depth_for_normal: 0,
+            flow_for_normal: false,
+            after_anchor_for_normal: false,
             strong_alias_id: None,
             weak_present: false,
             skip_third: false,
@@ -1979,6 +2021,8 @@ impl<'a, 'b, W: Write> TupleSer<'a, 'b, W> {
             kind: TupleKind::AnchorWeak,
             idx: 0,
             depth_for_normal: 0,
+            flow_for_normal: false,
+            after_anchor_for_normal: false,
             strong_alias_id: None,
             weak_present: false,
             skip_third: false,
@@ -1993,6 +2037,8 @@ impl<'a, 'b, W: Write> TupleSer<'a, 'b, W> {
             kind: TupleKind::Commented,
             idx: 0,
             depth_for_normal: 0,
+            flow_for_normal: false,
+            after_anchor_for_normal: false,
             strong_alias_id: None,
             weak_present: false,
             skip_third: false,
@@ -2009,19 +2055,7 @@ impl<'a, 'b, W: Write> SerializeTupleStruct for TupleSer<'a, 'b, W> {
     fn serialize_field<T: ?Sized + Serialize>(&mut self, value: &T) -> Result<()> {
         match self.kind {
             TupleKind::Normal => {
-                if self.idx == 0 {
-                    self.ser.write_anchor_for_complex_node()?;
-                    if !self.ser.at_line_start {
-                        self.ser.newline()?;
-                    }
-                }
-                self.ser.write_indent(self.ser.depth + 1)?;
-                let prev_parent_col = self.ser.block_parent_col.replace(self.ser.out.col);
-                self.ser.out.write_str("- ")?;
-                self.ser.at_line_start = false;
-                let result = value.serialize(&mut *self.ser);
-                self.ser.block_parent_col = prev_parent_col;
-                result?;
+                SerializeSeq::serialize_element(&mut self.as_seq(), value)?;
             }
             TupleKind::AnchorStrong => {
                 match self.idx {
@@ -2133,8 +2167,11 @@ impl<'a, 'b, W: Write> SerializeTupleStruct for TupleSer<'a, 'b, W> {
         Ok(())
     }
 
-    fn end(self) -> Result<()> {
-        Ok(())
+    fn end(mut self) -> Result<()> {
+        match self.kind {
+            TupleKind::Normal => SerializeSeq::end(self.as_seq()),
+            _ => Ok(()),
+        }
     }
 }
 
@@ -2148,22 +2185,32 @@ pub struct TupleVariantSer<'a, 'b, W: Write> {
     ser: &'a mut YamlSerializer<'b, W>,
     /// Target indentation depth for the fields.
     depth: usize,
+    /// Whether the next field is the first.
+    first: bool,
+}
+impl<'b, W: Write> TupleVariantSer<'_, 'b, W> {
+    /// The fields are written as a block sequence: the sequence serializer in its current state.
+    fn as_seq(&mut self) -> SeqSer<'_, 'b, W> {
+        SeqSer {
+            ser: &mut *self.ser,
+            depth: self.depth,
+            flow: false,
+            first: self.first,
+            after_anchor: false,
+        }
+    }
 }
 impl<'a, 'b, W: Write> SerializeTupleVariant for TupleVariantSer<'a, 'b, W> {
     type Ok = ();
     type Error = Error;
 
     fn serialize_field<T: ?Sized + Serialize>(&mut self, value: &T) -> Result<()> {
-        self.ser.write_indent(self.depth)?;
-        let prev_parent_col = self.ser.block_parent_col.replace(self.ser.out.col);
-        self.ser.out.write_str("- ")?;
-        self.ser.at_line_start = false;
-        let result = value.serialize(&mut *self.ser);
-        self.ser.block_parent_col = prev_parent_col;
-        result
-    }
-    fn end(self) -> Result<()> {
+        SerializeSeq::serialize_element(&mut self.as_seq(), value)?;
+        self.first = false;
         Ok(())
+    }
+    fn end(mut self) -> Result<()> {
+        SerializeSeq::end(self.as_seq())
     }
 }
 
